@@ -33,7 +33,9 @@ class SleepClient(RunnerClient):
             if granted:
                 if s != 1:
                     flags = flag1(flags, f"next attempt after a granted retry with {s} sleeper calls (expected exactly 1)")
-                if dec not in (None, "SLEEP"):
+                if dec == "PENDING":
+                    flags = flag1(flags, "next attempt although a configured sleep handler was never consulted")
+                elif dec not in (None, "SLEEP"):
                     flags = flag1(flags, f"next attempt although the sleep handler answered {dec}")
             elif s or b or h:
                 flags = flag1(flags, "sleep machinery ran without a granted retry")
@@ -50,6 +52,8 @@ class SleepClient(RunnerClient):
         if ev.kind != "call":
             return cs
         if self.is_callback(ev, "sleep_handler"):
+            if dec == "PENDING":
+                dec = None
             if h >= 1:
                 flags = flag1(flags, "sleep handler consulted twice for one retry")
             if b or s:
@@ -58,6 +62,8 @@ class SleepClient(RunnerClient):
                 flags = flag1(flags, "sleep handler consulted although no retry was granted")
             return (min(h + 1, 2), b, s, dec, granted, flags)
         if self.is_callback(ev, "before_sleep"):
+            if dec == "PENDING":
+                flags = flag1(flags, "before_sleep runs although a configured sleep handler has not been consulted")
             if s:
                 flags = flag1(flags, "before_sleep runs after the sleeper")
             if dec in ("DEFER", "ABORT"):
@@ -68,6 +74,8 @@ class SleepClient(RunnerClient):
         if self.is_callback(ev, "sleeper") or (ev.target is not None and ev.target.kind == "lib" and (ev.target.name or "") in ("time.sleep", "asyncio.sleep")):
             if dec in ("DEFER", "ABORT"):
                 flags = flag1(flags, f"the sleeper runs although the handler answered {dec}")
+            if dec == "PENDING":
+                flags = flag1(flags, "the sleeper runs although a configured sleep handler has not been consulted for this retry")
             if s >= 1:
                 flags = flag1(flags, "the sleeper is called twice for one retry")
             if not granted:
@@ -76,12 +84,17 @@ class SleepClient(RunnerClient):
         return cs
 
     def on_branch(self, ev: Event, cs: Any, branch: bool) -> Any:
-        return cs
-
-    def callback_results(self, category: str, ev: Event):
-        return super().callback_results(category, ev)
-
-    def on_callee_exit(self, ev: Event, cs: Any, exit_kind: str) -> Any:
+        # `sleep_fn is None` / `is not None`: remember whether a handler is configured
+        cond = ev.node.info["cond"]
+        if isinstance(cond, ast.Compare) and len(cond.ops) == 1 and isinstance(cond.ops[0], (ast.Is, ast.IsNot)) and isinstance(cond.comparators[0], ast.Constant) and cond.comparators[0].value is None:
+            t = ev.interp.prog.type_of(cond.left, ev.func)
+            if any(a[0] == "cb" and a[1] == "sleep_handler" for a in t):
+                is_none = isinstance(cond.ops[0], ast.Is) == branch
+                self.handler_known = True
+                h, b, s, dec, granted, flags = cs
+                if not is_none and h == 0:
+                    # a handler exists: it must be consulted before any sleep of this retry
+                    return (h, b, s, "PENDING" if dec is None else dec, granted, flags)
         return cs
 
 
@@ -117,8 +130,20 @@ def run(rep: Report, prog: Program, tier: str) -> None:
     rep.assumptions = ["a user sleep handler returns a SleepDecision member (typed domain)"]
     rep.not_decided = ["a handler returning a non-member (ValueError path is pinned, not judged)"]
 
-    rep.rule("R16.1", "per granted retry: handler at most once and first; SLEEP -> [before_sleep] then exactly one sleeper call, then the next attempt; DEFER/ABORT -> no before_sleep, no sleeper, no further attempt")
+    rep.rule("R16.1", "per granted retry: a configured handler is consulted exactly once and first; SLEEP -> [before_sleep] then exactly one sleeper call, then the next attempt; DEFER/ABORT -> no before_sleep, no sleeper, no further attempt")
     rep.rule("R16.2", "DEFER ends the run as SCHEDULED with next_sleep_s = the delay; ABORT ends it as ABORTED")
+    sleep_protocol(rep, "R16.1", "R16.2", prog)
+    rep.floor("R16.1", 60)
+    rep.floor("R16.2", 8)
+
+    # ---- argument tables
+    rep.rule("R16.3", "effect tables of _sync_sleep_action/_async_sleep_action/_handle_sleep_decision: a configured handler is consulted exactly once; handler(ctx, decision.sleep_s); before_sleep(ctx, decision.sleep_s); sleeper(decision.sleep_s); SCHEDULED emitted with sleep_s = decision.sleep_s and stop_reason SCHEDULED; ABORTED emitted once (guarded); decision returned unchanged")
+    sleep_action_tables(rep, "R16.3", prog)
+    rep.floor("R16.3", 12)
+    selectors_and_rest(rep, prog)
+
+
+def sleep_protocol(rep: Report, r1: str, r2: str, prog: Program) -> None:
     res = run_runners(prog, lambda: SleepClient2(prog))
     seen_dec = set()
     for name, (interp, exits, client) in res.items():
@@ -128,14 +153,14 @@ def run(rep: Report, prog: Program, tier: str) -> None:
             h, b, s, dec, granted, flags = ex.cstate
             seen_dec.add(dec)
             construct = f"{name}|{ex.how}:{ex.kind}|h={h} b={b} s={s} dec={dec} granted={granted}"
-            rep.instance("R16.1", construct, {"runner": q, "exit": f"{ex.how}:{ex.kind}", "handler_calls": h, "before_sleep_calls": b, "sleeper_calls": s, "handler_answer": dec} if len(rep.samples) < 16 else None)
+            rep.instance(r1, construct, {"runner": q, "exit": f"{ex.how}:{ex.kind}", "handler_calls": h, "before_sleep_calls": b, "sleeper_calls": s, "handler_answer": dec} if len(rep.samples) < 16 else None)
             if flags:
                 for f in sorted(flags):
-                    rep.fail("R16.1", f"{name}|{f}", f"{q}: {f}", where=prog.func(q).where(), function=q, path=short_witness(interp, ex))
+                    rep.fail(r1, f"{name}|{f}", f"{q}: {f}", where=prog.func(q).where(), function=q, path=short_witness(interp, ex))
                 continue
-            rep.ok("R16.1")
+            rep.ok(r1)
             if dec in ("DEFER", "ABORT"):
-                rep.instance("R16.2", construct)
+                rep.instance(r2, construct)
                 problem = None
                 if s or b:
                     problem = f"{dec}: before_sleep={b} sleeper={s}"
@@ -150,22 +175,28 @@ def run(rep: Report, prog: Program, tier: str) -> None:
                     if ex.how != "raise" or ex.kind != wantk:
                         problem = problem or f"{dec} must end call() by {wantk}; found {ex.how} {ex.kind}"
                 if problem:
-                    rep.fail("R16.2", f"{name}|{dec}|{ex.how}:{ex.kind}", f"{q}: {problem}", where=prog.func(q).where(), function=q, path=short_witness(interp, ex))
+                    rep.fail(r2, f"{name}|{dec}|{ex.how}:{ex.kind}", f"{q}: {problem}", where=prog.func(q).where(), function=q, path=short_witness(interp, ex))
                 else:
-                    rep.ok("R16.2")
+                    rep.ok(r2)
     if not {"DEFER", "ABORT", "SLEEP"} <= seen_dec:
-        raise AnalysisError(f"C16: handler answers reached: {seen_dec}")
-    rep.floor("R16.1", 60)
-    rep.floor("R16.2", 8)
+        raise AnalysisError(f"sleep protocol: handler answers reached: {seen_dec}")
 
-    # ---- argument tables
-    rep.rule("R16.3", "effect tables of _sync_sleep_action/_async_sleep_action/_handle_sleep_decision: handler(ctx, decision.sleep_s); before_sleep(ctx, decision.sleep_s); sleeper(decision.sleep_s); SCHEDULED emitted with sleep_s = decision.sleep_s and stop_reason SCHEDULED; ABORTED emitted once (guarded); decision returned unchanged")
+
+def sleep_action_tables(rep: Report, rid: str, prog: Program) -> None:
+    state = ("param", "state")
     for fn in ("_sync_sleep_action", "_async_sleep_action"):
         fi = prog.func(f"{HELPERS}:{fn}")
         rep.analysed(fi.qual)
         for p in engine(prog).paths(fi):
-            rep.instance("R16.3", f"{fn}|" + "|".join(p.describe()[-3:])[:140])
+            rep.instance(rid, f"{fn}|" + "|".join(p.describe()[-3:])[:140])
             problem = None
+            handler_present = any(a == ("cmp", "is", ("param", "sleep_fn"), ("const", None)) and not pol for a, pol, _ in p.conds)
+            handler_absent = any(a == ("cmp", "is", ("param", "sleep_fn"), ("const", None)) and pol for a, pol, _ in p.conds)
+            n_handler = sum(1 for e in p.calls() if e.callback() == "sleep_handler")
+            if p.exit[0] == "return" and handler_present and n_handler != 1:
+                problem = f"a sleep handler is configured but consulted {n_handler} times on this path"
+            if not (handler_present or handler_absent) and p.exit[0] == "return":
+                problem = "the presence of a sleep handler is not tested"
             for e in p.calls():
                 if e.callback() == "sleep_handler":
                     if e.args != [DEC_CTX, DEC_SLEEP]:
@@ -182,12 +213,11 @@ def run(rep: Report, prog: Program, tier: str) -> None:
                     if not hc or e.args[0] != hc[0].result or e.args[1:] != [("param", "state"), ("param", "attempt"), ("param", "decision")]:
                         problem = f"_handle_sleep_decision receives {[show(a) for a in e.args]}"
             if problem:
-                rep.fail("R16.3", f"{fn}|{problem[:40]}", f"{fn}: {problem}", where=fi.where(), function=fi.qual, path=p.describe())
+                rep.fail(rid, f"{fn}|{problem[:40]}", f"{fn}: {problem}", where=fi.where(), function=fi.qual, path=p.describe())
             else:
-                rep.ok("R16.3")
+                rep.ok(rid)
     hd = prog.func(f"{HELPERS}:_handle_sleep_decision")
     rep.analysed(hd.qual)
-    state = ("param", "state")
     for p in engine(prog).paths(hd):
         which = None
         for a, pol, _ in p.conds:
@@ -195,7 +225,7 @@ def run(rep: Report, prog: Program, tier: str) -> None:
                 which = enum_name(a[3], "SleepDecision")
         emits = [emit_info(e) for e in p.events if is_emit(e)]
         stores = [(enum_name(e.value, "StopReason")) for e in p.stores() if e.loc == attr(state, "last_stop_reason")]
-        rep.instance("R16.3", f"_handle_sleep_decision|{which}|{len(emits)}")
+        rep.instance(rid, f"_handle_sleep_decision|{which}|{len(emits)}")
         problem = None
         if which is None:
             if p.exit[0] != "raise" or p.exit[1] != "ValueError":
@@ -216,11 +246,12 @@ def run(rep: Report, prog: Program, tier: str) -> None:
                 elif stores != ["ABORTED"] or len(emits) != 1 or emits[0]["event_name"] != "ABORTED" or emits[0]["reason_name"] != "ABORTED":
                     problem = f"ABORT must set ABORTED and emit `aborted` once; found stores {stores} emits {[(e['event_name'], e['reason_name']) for e in emits]}"
         if problem:
-            rep.fail("R16.3", f"_handle_sleep_decision|{which}|{problem[:40]}", f"_handle_sleep_decision: {problem}", where=hd.where(), function=hd.qual, path=p.describe())
+            rep.fail(rid, f"_handle_sleep_decision|{which}|{problem[:40]}", f"_handle_sleep_decision: {problem}", where=hd.where(), function=hd.qual, path=p.describe())
         else:
-            rep.ok("R16.3")
-    rep.floor("R16.3", 12)
+            rep.ok(rid)
 
+
+def selectors_and_rest(rep: Report, prog: Program) -> None:
     # ---- precedence of the selectors
     rep.rule("R16.4", "_resolve_sleep/_resolve_before_sleep/_resolve_sleeper/_resolve_attempt_hooks: the call-level value wins unless it is None; at every call site the policy-level attribute is the first and the call-level parameter the second argument")
     for fn, pol_p, call_p in (("_resolve_sleep", "policy_sleep", "call_sleep"), ("_resolve_before_sleep", "policy_before_sleep", "call_before_sleep"), ("_resolve_sleeper", "policy_sleeper", "call_sleeper")):
